@@ -43,5 +43,25 @@ Variant(j) ==
       rule |-> IF (h \div 3) % 2 = 0 THEN "NonZero" ELSE "EvenOdd",
       aa |-> (h \div 5) % 4 # 0,
       route |-> IF (h \div 11) % 9 = 0 THEN "clip" ELSE "fill"]
-Emit == Done => \A j \in 0..(NVAR - 1) : PrintT(ToJson(Variant(j)))
+(* the same polygons as path ops (families contains / flatten-structure): coordinates are  *)
+(* doubled (den = 2) so that query points can fall on half-integers; variants add an       *)
+(* explicit Close and a drawing op after it.                                               *)
+FAM == EnvStr("FAM", "cov")
+RECURSIVE LoopOps(_, _)
+LoopOps(l, k) == IF k > Len(l) THEN <<>>
+                 ELSE << <<IF k = 1 THEN "M" ELSE "L", 2 * l[k][1], 2 * l[k][2]>> >> \o LoopOps(l, k + 1)
+RECURSIVE AllOps(_, _, _)
+AllOps(ls, i, h) ==
+  IF i > Len(ls) THEN <<>>
+  ELSE LET closed == ((h \div 7) + i) % 2 = 0
+           extra == closed /\ ((h \div 5) + i) % 3 = 0
+           body == IF (h \div 11) % 7 = 0 /\ i = 1 THEN Tail(LoopOps(ls[i], 1)) ELSE LoopOps(ls[i], 1)
+       IN body \o (IF closed THEN << <<"Z">> >> ELSE <<>>)
+               \o (IF extra THEN << <<"L", 2 * ls[i][2][1] + 1, 2 * ls[i][1][2] + 1>> >> ELSE <<>>)
+               \o AllOps(ls, i + 1, h)
+VariantPath(j) ==
+  LET h == H + 7919 * j
+  IN [id |-> ToString(<<"gp", loops, j>>), fam |-> FAM, den |-> 2, ops |-> AllOps(loops, 1, h),
+      rule |-> IF (h \div 3) % 2 = 0 THEN "NonZero" ELSE "EvenOdd"]
+Emit == Done => \A j \in 0..(NVAR - 1) : PrintT(ToJson(IF FAM = "cov" THEN Variant(j) ELSE VariantPath(j)))
 =============================================================================
